@@ -6,6 +6,7 @@ import (
 	stded "crypto/ed25519"
 	"fmt"
 	"math/big"
+	"sync"
 
 	"github.com/cloudflare/pat-go/ed25519"
 	"verif/harness/internal/h"
@@ -25,6 +26,13 @@ func leBytes(v *big.Int, n int) []byte {
 }
 
 // c14Verify compares the fork, crypto/ed25519 and (model + math/big reference) on one (public key, message, signature).
+type c14Scratch struct {
+	key [32]byte
+	sig [64]byte
+}
+
+var c14Bufs sync.Map // per worker context: the reused buffers
+
 func c14Verify(c *h.Ctx, cat_ string, pk, msg, sig []byte) {
 	var impl bool
 	pan, pmsg := h.Protect(func() { impl = ed25519.Verify(pk, msg, sig) })
@@ -39,6 +47,20 @@ func c14Verify(c *h.Ctx, cat_ string, pk, msg, sig []byte) {
 	if impl != std {
 		det["fork"], det["crypto/ed25519"] = impl, std
 		c.Violation("verification returns the standard library's verdict for every public key, message and byte string offered as a signature", det)
+	}
+	// the same call with key, message and signature handed over in buffers that are REUSED in place from call to call
+	// (a verifier that remembers something about an earlier call by reference sees its own memory change)
+	if len(pk) == 32 && len(sig) == 64 {
+		bv, _ := c14Bufs.LoadOrStore(c, &c14Scratch{})
+		sc := bv.(*c14Scratch)
+		copy(sc.key[:], pk)
+		copy(sc.sig[:], sig)
+		var impl2 bool
+		pan2, _ := h.Protect(func() { impl2 = ed25519.Verify(sc.key[:], msg, sc.sig[:]) })
+		if pan2 || impl2 != std {
+			det["fork_with_reused_buffers"], det["crypto/ed25519"] = impl2, std
+			c.Violation("the verdict does not depend on earlier calls (key and signature passed in buffers reused in place)", det)
+		}
 	}
 	// the verdict recomputed from the model's checks and the reference group law
 	want := false
@@ -292,6 +314,43 @@ func runC14Part(c *h.Ctx, part int) {
 	wide := [][]byte{make([]byte, 64), bytesFF(64), cat(bytesFF(32), make([]byte, 32)), cat(make([]byte, 32), bytesFF(32)), cat(leBytes(L, 32), make([]byte, 32)), cat(make([]byte, 32), leBytes(L, 32))}
 	for j := 0; j < 40; j++ {
 		wide = append(wide, rnd(c, 64))
+	}
+	// two-parameter structured 512-bit values (2^a +- 2^b, and their neighbours): rare carry patterns of the reduction;
+	// volume against math/big directly (the Coq model takes the sample above)
+	{
+		one := big.NewInt(1)
+		step := 3
+		if c.Thorough() {
+			step = 1
+		}
+		bad := 0
+		for a := part % step; a < 512 && bad < 5; a += step {
+			for b := 0; b < a && bad < 5; b++ {
+				for sgn := 0; sgn < 2; sgn++ {
+					v := new(big.Int).Lsh(one, uint(a))
+					if sgn == 0 {
+						v.Add(v, new(big.Int).Lsh(one, uint(b)))
+					} else {
+						v.Sub(v, new(big.Int).Lsh(one, uint(b)))
+					}
+					w := leBytes(v, 64)
+					got := ed25519.VerifScalarSetUniformBytes(w)
+					want := leBytes(new(big.Int).Mod(v, L), 32)
+					if !bytes.Equal(got, want) {
+						bad++
+						c.Violation("reduction of a 512-bit value modulo L (2^a +- 2^b)", map[string]any{"a": a, "b": b, "minus": sgn == 1, "got": h.Hex(got), "want": h.Hex(want)})
+					}
+					if a < 256 {
+						got32 := ed25519.VerifScalarSetBytes(w[:32])
+						if !bytes.Equal(got32, want) {
+							bad++
+							c.Violation("reduction of a 256-bit value modulo L (2^a +- 2^b)", map[string]any{"a": a, "b": b, "minus": sgn == 1})
+						}
+					}
+				}
+			}
+		}
+		c.Count("scalar:reduce-structured-vs-math/big", 512*511/step, fmt.Sprint(part))
 	}
 	for _, w := range wide {
 		c.Case("scalar:reduce-64", true, "ed_reduce", [][]byte{w}, [][]byte{ed25519.VerifScalarSetUniformBytes(w)})
